@@ -891,6 +891,12 @@ func Go(site string, f func()) {
 	e.seq++
 	t.parkSeq = e.seq
 	go e.threadMain(t, f, false)
+	if unlockPoint || e.cfg.UnlockPoints {
+		// fine-grained mode: a scheduling point right after every go statement of the code under test, so that
+		// "the new goroutine runs before its parent's next plain statement" is explored (a WaitGroup.Add placed
+		// after the go statement, a field filled in after it)
+		e.point(opYield, "spawned", site)
+	}
 }
 
 // GoNamed is Go with a name for traces (harness use).
